@@ -145,7 +145,10 @@ Definition comp_ok (d : idraw) (p : Z) (o : oentry) : bool :=
       let qs := map tr_q (dc_tr c) in
       forallb (tr_ok d p o) (dc_tr c)
       && negb (match qs with [] => true | _ => false end)
-      && (if one_row_kind (oe_cls o) then forallb (fun q => mem_z q (op_qubits o)) qs else list_eqb Z.eqb qs (op_qubits o))
+      (* every transform sits on a row of one of the operation's qubits; a multi-row operation has one on each of its qubits, in the
+         order of its qubit list (a list naming a qubit twice is drawn twice on that row: the text does not forbid it) *)
+      && (if one_row_kind (oe_cls o) then forallb (fun q => mem_z q (op_qubits o)) qs
+          else list_eqb Z.eqb (uniq_z [] qs) (op_qubits o))
   | _ => false
   end.
 Fixpoint comps_ok_from (d : idraw) (p : Z) (ops : list oentry) : bool :=
